@@ -493,6 +493,34 @@ impl<F: PrimeField, CS: PolynomialCommitmentScheme<F>> VerifyingKey<F, CS> {
     }
 }
 
+#[cfg(feature = "verif-hooks")]
+impl<F: PrimeField, CS: PolynomialCommitmentScheme<F>> ProvingKey<F, CS> {
+    /// (verif-hooks, add-only) The parts of a proving key that [`ProvingKey::write`] does not
+    /// serialise and [`ProvingKey::read`] recomputes, as named lists of value vectors (`l0`,
+    /// `l_last`, `l_active_row`, coefficient and extended forms of the fixed columns and of the
+    /// permutation polynomials), together with the `Debug` rendering of the evaluator.
+    #[allow(clippy::type_complexity)]
+    pub fn verif_derived_parts(&self) -> (Vec<(&'static str, Vec<Vec<F>>)>, String) {
+        fn all<F: PrimeField, B>(ps: &[Polynomial<F, B>]) -> Vec<Vec<F>> {
+            ps.iter().map(|p| p.to_vec()).collect()
+        }
+        (
+            vec![
+                ("l0", vec![self.l0.to_vec()]),
+                ("l_last", vec![self.l_last.to_vec()]),
+                ("l_active_row", vec![self.l_active_row.to_vec()]),
+                ("fixed_values", all(&self.fixed_values)),
+                ("fixed_polys", all(&self.fixed_polys)),
+                ("fixed_cosets", all(&self.fixed_cosets)),
+                ("permutations", all(&self.permutation.permutations)),
+                ("permutation_polys", all(&self.permutation.polys)),
+                ("permutation_cosets", all(&self.permutation.cosets)),
+            ],
+            format!("{:?}", self.ev),
+        )
+    }
+}
+
 #[allow(clippy::too_many_arguments)]
 pub(crate) fn evaluate_identities<'a, F, CS>(
     vk: &'a VerifyingKey<F, CS>,
